@@ -1,5 +1,5 @@
 /-
-Lemmas/ByteLayout.lean — the tokenizer of Spec/ByteLayout.lean inverts the reference encoder.
+Lemmas/ByteLayout.lean — the tokenizer of Spec/ByteLayout.lean inverts the reference encoder, also on truncated input.
 -/
 import KafkaVerif.Spec.ByteLayout
 import KafkaVerif.Lemmas.RecordBatchSpec
@@ -7,55 +7,217 @@ import KafkaVerif.Lemmas.RecordBatchSpec
 namespace KV.C02
 open KV KV.RW KV.Spec.RB
 
-theorem tokenizeFrame_enc (crc : Bytes → Nat) (hcrc : ∀ b, crc b < M32) (dg : FrameV2 → RecV2 → Nat) (b : BBatch)
-    (hwf : b.frame.WF) (r : Bytes) :
-    tokenizeFrame crc dg (encFrame crc b.frame ++ r) = some (tokensOf (b.item dg), r) := by
-  have hdec : decodeRecs b.frame.count b.frame.payload = some b.recs := by
-    simpa [BBatch.frame] using decodeRecs_encRecs b.recs
-  have hcodec : codecOf b.frame.attributes = 0 := by simp [BBatch.frame, codecOf]
-  simp only [tokenizeFrame, readFrame_encFrame crc hcrc b.frame hwf r, hcodec, ne_eq, not_true_eq_false, if_false, hdec]
-  simp only [BBatch.item, tokensOf, Bool.false_eq_true, if_false, List.length_map, List.map_map, BBatch.frame,
-    Option.some.injEq, Prod.mk.injEq, and_true, List.cons.injEq]
-  refine ⟨?_, ?_⟩
-  · congr 1; omega
-  · apply List.map_congr_left; intro a _; rfl
+/-! ### primitives on prefixes -/
 
-theorem encFrame_ne_nil (crc : Bytes → Nat) (f : FrameV2) : encFrame crc f ≠ [] := by
-  intro h
-  have := congrArg List.length h
-  simp [encFrame, i64, beN_length] at this
+theorem take_append_ge {α : Type} (a b : List α) (n : Nat) (h : a.length ≤ n) :
+    (a ++ b).take n = a ++ b.take (n - a.length) := by
+  rw [List.take_append]
+  simp [List.take_of_length_le h]
 
-theorem tokenizeSet_succ (crc : Bytes → Nat) (dg : FrameV2 → RecV2 → Nat) (fuel : Nat) (bs : Bytes) (h : bs ≠ []) :
-    tokenizeSet crc dg (fuel + 1) bs =
-      (match tokenizeFrame crc dg bs with
-       | none => none
-       | some (ts, rest) =>
-         match tokenizeSet crc dg fuel rest with
-         | none => none
-         | some ts' => some (ts ++ ts')) := by
-  cases bs with
-  | nil => exact absurd rfl h
-  | cons x xs => rfl
+theorem take_append_lt {α : Type} (a b : List α) (n : Nat) (h : n ≤ a.length) :
+    (a ++ b).take n = a.take n := by
+  rw [List.take_append]
+  have : n - a.length = 0 := by omega
+  simp [this]
 
-/-- **bytes ↔ tokens**: tokenizing the reference encoding of a list of uncompressed v2 batches gives exactly the token
-stream of their layout -/
-theorem tokenizeSet_enc (crc : Bytes → Nat) (hcrc : ∀ b, crc b < M32) (dg : FrameV2 → RecV2 → Nat) :
-    ∀ (bs : List BBatch), (∀ b ∈ bs, b.frame.WF) → ∀ fuel, bs.length ≤ fuel →
-      tokenizeSet crc dg fuel (encSetV2 crc bs) = some (allTokens (layoutOf dg bs)) := by
+/-- a strict prefix of a LEB128 number is not a number (every byte but the last has the continuation bit) -/
+theorem readUvarint_prefix (n : Nat) : ∀ k, k < (uvarint n).length → readUvarint ((uvarint n).take k) = none := by
+  induction n using uvarint.induct with
+  | case1 n h =>
+    intro k hk
+    rw [uvarint] at hk ⊢
+    simp only [h, if_true, List.length_singleton] at hk ⊢
+    have : k = 0 := by omega
+    subst this
+    simp [readUvarint]
+  | case2 n h ih =>
+    intro k hk
+    rw [uvarint] at hk ⊢
+    simp only [h, if_false, List.length_cons] at hk ⊢
+    cases k with
+    | zero => simp [readUvarint]
+    | succ k =>
+      simp only [List.take_succ_cons, readUvarint, byte_toNat]
+      have : ¬ (n % 128 + 128) % 256 < 128 := by omega
+      simp only [this, if_false]
+      rw [ih k (by omega)]
+
+theorem encRec_length_pos (r : RecV2) : 0 < (encRec r).length := by
+  simp only [encRec, List.length_append, varint_length]
+  have := uvarintLen_pos (zigzag ((recBody r).length : Int))
+  simp only [varintLen]; omega
+
+/-- a record whose bytes are not all there cannot be read -/
+theorem readRec_prefix (r : RecV2) (x : Bytes) (n : Nat) (h : n < (encRec r).length) :
+    readRec ((encRec r ++ x).take n) = none := by
+  simp only [encRec, List.append_assoc] at h ⊢
+  by_cases hv : n < (varint ((recBody r).length : Int)).length
+  · rw [take_append_lt _ _ _ (by omega)]
+    simp only [readRec, readVarint, varint]
+    rw [readUvarint_prefix _ _ (by simpa [varint] using hv)]
+  · rw [take_append_ge _ _ _ (by omega)]
+    simp only [readRec, readVarint_varint]
+    have h2 : ¬ (((recBody r).length : Int) < 0) := by omega
+    simp only [h2, if_false, Int.toNat_natCast]
+    have hlen : ((recBody r ++ x).take (n - (varint ((recBody r).length : Int)).length)).length < (recBody r).length := by
+      simp only [List.length_take, List.length_append] at h ⊢
+      omega
+    unfold takeN
+    rw [if_neg (Nat.not_le.mpr hlen)]
+
+theorem readRec_take (r : RecV2) (x : Bytes) (n : Nat) (h : (encRec r).length ≤ n) :
+    readRec ((encRec r ++ x).take n) = some (r, x.take (n - (encRec r).length)) := by
+  rw [take_append_ge _ _ _ h, readRec_encRec]
+
+/-! ### the v2 header -/
+
+theorem encFrame_split (crc : Bytes → Nat) (f : FrameV2) :
+    encFrame crc f = encH2 (crc (frameBody f)) f ++ f.payload := by
+  simp [encFrame, encH2, frameBody, List.append_assoc]
+
+theorem encH2_length (c : Nat) (f : FrameV2) : (encH2 c f).length = 61 := by
+  simp [encH2, u32]
+
+theorem readH2_encH2 (c : Nat) (hc : c < M32) (f : FrameV2) (h : f.WF) (x : Bytes) :
+    readH2 (encH2 c f ++ x) = some (⟨f.baseOffset, f.lastOffsetDelta, f.firstTs, f.count, f.attributes, f.payload.length⟩, x) := by
+  obtain ⟨h1, h2, h3, h4, h5, h6, h7, h8, h9, h10, h11⟩ := h
+  have hlen : InRange M32 (9 + ((frameBody f).length : Int)) := by
+    rw [frameBody_length]; unfold InRange M32 at *; omega
+  have hm : InRange M8 2 := by unfold InRange M8; omega
+  have hl : (9 + ((frameBody f).length : Int) - 49).toNat = f.payload.length := by
+    rw [frameBody_length]; omega
+  simp [encH2, readH2, List.append_assoc, Int.natCast_add, readI64_i64 _ _ h1, readI32_i32 _ _ hlen, readI32_i32 _ _ h2, readI8_i8 _ _ hm,
+    readU32_u32 _ _ hc, readI16_i16 _ _ h3, readI32_i32 _ _ h4, readI64_i64 _ _ h5, readI64_i64 _ _ h6,
+    readI64_i64 _ _ h7, readI16_i16 _ _ h8, readI32_i32 _ _ h9, readI32_i32 _ _ h10, hl]
+
+end KV.C02
+
+namespace KV.C02
+open KV KV.RW KV.Spec.RB
+
+/-! ### uncompressed v2 batches, cut anywhere -/
+
+def r2Tok (dg2 : Int → RecV2 → Nat) (fts : Int) (r : RecV2) : Tok := .r2 r.offDelta (dg2 fts r) (encRec r).length
+
+theorem truncate_cons_fit (t : Tok) (ts : List Tok) (n : Nat) (h : t.size ≤ n) :
+    truncate (t :: ts) n = t :: truncate ts (n - t.size) := by simp [truncate, h]
+
+theorem truncate_cons_zero (t : Tok) (ts : List Tok) (h : 0 < t.size) : truncate (t :: ts) 0 = [] := by
+  have : ¬ t.size ≤ 0 := by omega
+  simp [truncate, this]
+
+theorem truncate_cons_cut (t : Tok) (ts : List Tok) (n : Nat) (h : n < t.size) (h0 : n ≠ 0) :
+    truncate (t :: ts) n = [.cut] := by
+  have : ¬ t.size ≤ n := by omega
+  simp [truncate, this, h0]
+
+theorem tokenize_nil (dg2 : Int → RecV2 → Nat) (fuel : Nat) (st : TS) : tokenize dg2 fuel st [] = [] := by
+  cases fuel <;> simp [tokenize]
+
+theorem tokenize_recs (dg2 : Int → RecV2 → Nat) (h : H2) (Rb : Bytes) (Rt : List Tok)
+    (IH : ∀ m fuel, m < fuel → tokenize dg2 fuel .hdr (Rb.take m) = truncate Rt m) :
+    ∀ (recs : List RecV2) (n fuel : Nat), n < fuel →
+      tokenize dg2 fuel (if recs.length = 0 then .hdr else .recs h recs.length) ((encRecs recs ++ Rb).take n)
+        = truncate (recs.map (r2Tok dg2 h.firstTs) ++ Rt) n := by
+  intro recs
+  induction recs with
+  | nil => intro n fuel hf; simpa [encRecs] using IH n fuel hf
+  | cons r rs ih =>
+    intro n fuel hf
+    cases fuel with
+    | zero => omega
+    | succ fuel =>
+      have hpos := encRec_length_pos r
+      have hsz : (r2Tok dg2 h.firstTs r).size = (encRec r).length := rfl
+      simp only [List.length_cons, Nat.add_one_ne_zero, if_false, encRecs, List.append_assoc, List.map_cons, List.cons_append]
+      by_cases hfit : (encRec r).length ≤ n
+      · rw [truncate_cons_fit _ _ _ (by rw [hsz]; exact hfit), hsz]
+        have hread := readRec_take r (encRecs rs ++ Rb) n hfit
+        have hne : ((encRec r ++ (encRecs rs ++ Rb)).take n).isEmpty = false := by
+          rw [take_append_ge _ _ _ hfit]
+          cases hb : encRec r with
+          | nil => rw [hb] at hpos; simp at hpos
+          | cons x xs => simp
+        have hlen : ((encRec r ++ (encRecs rs ++ Rb)).take n).length - ((encRecs rs ++ Rb).take (n - (encRec r).length)).length
+            = (encRec r).length := by
+          rw [take_append_ge _ _ _ hfit]; simp
+        simp only [tokenize, hne, Bool.false_eq_true, if_false, hread, hlen]
+        have hst : (if rs.length + 1 ≤ 1 then TS.hdr else TS.recs h (rs.length + 1 - 1))
+            = (if rs.length = 0 then TS.hdr else TS.recs h rs.length) := by
+          by_cases h0 : rs.length = 0 <;> simp [h0]
+        rw [hst, ih (n - (encRec r).length) fuel (by omega)]
+        rfl
+      · by_cases h0 : n = 0
+        · subst h0
+          rw [truncate_cons_zero _ _ (by rw [hsz]; exact hpos)]
+          simp [tokenize]
+        · rw [truncate_cons_cut _ _ _ (by rw [hsz]; omega) h0]
+          have hne : ((encRec r ++ (encRecs rs ++ Rb)).take n).isEmpty = false := by
+            have : 0 < ((encRec r ++ (encRecs rs ++ Rb)).take n).length := by
+              simp only [List.length_take, List.length_append]; omega
+            cases hb : (encRec r ++ (encRecs rs ++ Rb)).take n with
+            | nil => rw [hb] at this; simp at this
+            | cons x xs => simp
+          simp only [tokenize, hne, Bool.false_eq_true, if_false, readRec_prefix r _ n (by omega)]
+
+/-- **bytes ↔ tokens, uncompressed v2 batches**: tokenizing the first `n` bytes of the reference encoding gives the
+token stream of the layout truncated at `n` bytes -/
+theorem tokenize_v2 (crc : Bytes → Nat) (hcrc : ∀ b, crc b < M32) (dg2 : Int → RecV2 → Nat) :
+    ∀ (bs : List BBatch), (∀ b ∈ bs, b.frame.WF) → ∀ (n fuel : Nat), n < fuel →
+      tokenize dg2 fuel .hdr ((encSetV2 crc bs).take n) = truncate (allTokens (layoutOf dg2 bs)) n := by
   intro bs
   induction bs with
-  | nil => intro _ fuel _; cases fuel <;> simp [encSetV2, tokenizeSet, layoutOf, allTokens]
+  | nil => intro _ n fuel _; simp [encSetV2, tokenize_nil, layoutOf, allTokens, truncate]
   | cons b bs ih =>
-    intro hwf fuel hf
+    intro hwf n fuel hf
     cases fuel with
-    | zero => simp at hf
+    | zero => omega
     | succ fuel =>
-      have hne : encFrame crc b.frame ++ encSetV2 crc bs ≠ [] := by
-        intro h; exact encFrame_ne_nil crc b.frame (List.append_eq_nil_iff.mp h).1
-      have ihb := ih (fun x hx => hwf x (by simp [hx])) fuel (by simp at hf; omega)
-      simp only [encSetV2]
-      rw [tokenizeSet_succ crc dg fuel _ hne]
-      simp only [tokenizeFrame_enc crc hcrc dg b (hwf b (by simp)) (encSetV2 crc bs), ihb]
-      simp [layoutOf, allTokens]
+      have hb := hwf b (by simp)
+      have ihb := ih (fun x hx => hwf x (by simp [hx]))
+      have htoks : allTokens (layoutOf dg2 (b :: bs))
+          = Tok.h2 b.hdr.baseOffset b.hdr.lastOffsetDelta b.recs.length false (encRecs b.recs).length ::
+            (b.recs.map (r2Tok dg2 b.hdr.firstTs) ++ allTokens (layoutOf dg2 bs)) := by
+        simp only [layoutOf, allTokens, List.map_cons, List.flatMap_cons, BBatch.item, tokensOf, Bool.false_eq_true,
+          if_false, List.length_map, List.map_map, List.cons_append, List.cons.injEq, Tok.h2.injEq, true_and, and_true]
+        refine ⟨by omega, ?_⟩
+        congr 1
+      have hbytes : encSetV2 crc (b :: bs)
+          = encH2 (crc (frameBody b.frame)) b.frame ++ (encRecs b.recs ++ encSetV2 crc bs) := by
+        simp [encSetV2, encFrame_split, BBatch.frame, List.append_assoc]
+      rw [htoks, hbytes]
+      have hl61 := encH2_length (crc (frameBody b.frame)) b.frame
+      by_cases h61 : 61 ≤ n
+      · rw [truncate_cons_fit _ _ _ (by simpa [Tok.size] using h61)]
+        rw [take_append_ge _ _ _ (by omega), hl61]
+        have hne : (encH2 (crc (frameBody b.frame)) b.frame ++ (encRecs b.recs ++ encSetV2 crc bs).take (n - 61)).isEmpty = false := by
+          cases hx : encH2 (crc (frameBody b.frame)) b.frame with
+          | nil => rw [hx] at hl61; simp at hl61
+          | cons y ys => simp
+        have hlen : ¬ (encH2 (crc (frameBody b.frame)) b.frame ++ (encRecs b.recs ++ encSetV2 crc bs).take (n - 61)).length < 61 := by
+          simp only [List.length_append, hl61]; omega
+        simp only [tokenize, hne, Bool.false_eq_true, if_false, hlen, readH2_encH2 _ (hcrc _) _ hb]
+        have hcnt : (b.frame.count).toNat = b.recs.length := by simp [BBatch.frame]
+        have hattr : (b.frame.attributes % 8 != 0) = false := by simp [BBatch.frame]
+        simp only [hcnt, hattr]
+        have := tokenize_recs dg2 ⟨b.frame.baseOffset, b.frame.lastOffsetDelta, b.frame.firstTs, b.frame.count, b.frame.attributes,
+          b.frame.payload.length⟩ (encSetV2 crc bs) (allTokens (layoutOf dg2 bs)) (fun m f hm => ihb m f hm) b.recs (n - 61) fuel (by omega)
+        simp only [Tok.size]
+        rw [this]
+        simp [BBatch.frame]
+      · by_cases h0 : n = 0
+        · subst h0
+          rw [truncate_cons_zero _ _ (by simp [Tok.size])]
+          simp [tokenize]
+        · rw [truncate_cons_cut _ _ _ (by simp [Tok.size]; omega) h0]
+          have hlen : ((encH2 (crc (frameBody b.frame)) b.frame ++ (encRecs b.recs ++ encSetV2 crc bs)).take n).length = n := by
+            simp only [List.length_take, List.length_append, hl61]; omega
+          have hne : ((encH2 (crc (frameBody b.frame)) b.frame ++ (encRecs b.recs ++ encSetV2 crc bs)).take n).isEmpty = false := by
+            cases hx : (encH2 (crc (frameBody b.frame)) b.frame ++ (encRecs b.recs ++ encSetV2 crc bs)).take n with
+            | nil => rw [hx] at hlen; simp at hlen; omega
+            | cons y ys => simp
+          have hlt : ((encH2 (crc (frameBody b.frame)) b.frame ++ (encRecs b.recs ++ encSetV2 crc bs)).take n).length < 61 := by
+            rw [hlen]; omega
+          simp only [tokenize, hne, Bool.false_eq_true, if_false, hlt, if_true]
 
 end KV.C02
